@@ -209,43 +209,70 @@ func checkC14(w *World, r *Report) {
 		ars := w.Method("compile", "Compiler", "assertReferenceStatus")
 		afd, _ := w.FuncDecl(ars)
 		sameMod, cmp := false, false
-		ast.Inspect(afd.Body, func(x ast.Node) bool {
-			is, isIf := x.(*ast.IfStmt)
-			if !isIf {
-				return true
-			}
-			be, isB := ast.Unparen(is.Cond).(*ast.BinaryExpr)
-			if !isB {
-				return true
-			}
-			if be.Op == token.NEQ && strings.HasSuffix(types.ExprString(be.X), ".Root()") && strings.HasSuffix(types.ExprString(be.Y), ".Root()") && len(returnsIn(is.Body)) == 1 {
-				sameMod = true
-			}
-			if be.Op == token.LSS && len(callsTo(p, is.Body, cerr)) == 1 {
-				// left derives from src (param 0), right from dst (param 1)
-				from := func(e ast.Expr) int {
-					o := objOfIdent(p, e)
-					res := -1
-					ast.Inspect(afd.Body, func(y ast.Node) bool {
-						if as, ok := y.(*ast.AssignStmt); ok && len(as.Lhs) == 1 && objOfIdent(p, as.Lhs[0]) == o {
-							if ce, ok := as.Rhs[0].(*ast.CallExpr); ok && len(ce.Args) >= 1 {
-								for i := 0; i < 2; i++ {
-									if objOfIdent(p, ce.Args[0]) == paramObj(p, afd, i) {
-										res = i
-									}
-								}
-							}
-						}
-						return true
-					})
-					return res
+		if af := w.SSAFunc(ars); af != nil && len(af.Params) == 4 {
+			src, dst := af.Params[1], af.Params[2]
+			sym := NewSym(w)
+			sym.Expand = false
+			gs := w.SSAFunc(w.Method("compile", "Compiler", "getStatus"))
+			statusOf := func(v ssa.Value) *ssa.Parameter {
+				c, ok := v.(*ssa.Call)
+				if !ok || c.Call.StaticCallee() != gs || len(c.Call.Args) < 2 {
+					return nil
 				}
-				if from(be.X) == 0 && from(be.Y) == 1 {
-					cmp = true
+				prm, _ := c.Call.Args[1].(*ssa.Parameter)
+				return prm
+			}
+			rootOf := func(v ssa.Value) *ssa.Parameter {
+				c, ok := v.(*ssa.Call)
+				if !ok || !c.Call.IsInvoke() || nm(c.Call.Method) != "Root" {
+					return nil
+				}
+				prm, _ := c.Call.Value.(*ssa.Parameter)
+				return prm
+			}
+			classify := func(a *pcAtom) string {
+				if a.x == nil || a.y == nil {
+					return ""
+				}
+				if a.op == token.EQL && ((rootOf(a.x) == src && rootOf(a.y) == dst) || (rootOf(a.x) == dst && rootOf(a.y) == src)) {
+					return "same"
+				}
+				if a.op == token.LSS {
+					if statusOf(a.x) == src && statusOf(a.y) == dst {
+						return "less"
+					}
+					if statusOf(a.x) == dst && statusOf(a.y) == src {
+						return "more"
+					}
+				}
+				return ""
+			}
+			errCond := pcZ
+			nErr := 0
+			for _, bl := range af.Blocks {
+				for _, in := range bl.Instrs {
+					if c, ok := in.(*ssa.Call); ok && c.Call.StaticCallee() != nil && c.Call.StaticCallee().Object() == types.Object(cerr) {
+						nErr++
+						errCond = pcOrF(errCond, sym.PathCond(af.Blocks[0], bl, nil))
+					}
 				}
 			}
-			return true
-		})
+			if nErr > 0 {
+				hasSame, hasLess := false, false
+				for _, a := range errCond.atoms() {
+					switch classify(a) {
+					case "same":
+						hasSame = true
+					case "less":
+						hasLess = true
+					}
+				}
+				// refused exactly for: same module ∧ status(src) < status(dst)
+				ok := pcCompare(errCond, classify, func(env map[string]bool) bool { return env["same"] && env["less"] }) == ""
+				sameMod = hasSame && ok
+				cmp = hasLess && ok
+			}
+		}
 		r.Check(sameMod, "R14.2", "assertReferenceStatus: same module only", afd.Pos(), "src.Root() != dst.Root() ⇒ return", "the reference-status rule is applied across modules (or not restricted at all)")
 		r.Check(cmp, "R14.2", "assertReferenceStatus: comparison", afd.Pos(), "status(src) < status(dst) ⇒ error", "a current definition may reference a deprecated/obsolete one in its own module")
 	})
